@@ -173,6 +173,7 @@ Proof.
   unfold handle_last_will. intros H.
   destruct (al_get str_eqb client (r_wills st)) as [w|]; [|inv_ok; apply LL_refl].
   destruct (negb (utf8_valid _)); [inv_ok; now apply LL_eq|].
+  match type of H with (if ?b then _ else _) = _ => destruct b end; [inv_ok; now apply LL_eq|].
   apply bind_ok in H as ([st3 idxs] & H3 & H). apply bind_ok in H as (st4 & H4 & H).
   eapply LL_trans; [|eapply LL_trans; [eapply dl_matches_LL; exact H3|]].
   - eapply LL_trans; [|apply LL_SL; apply retain_update_same]. now apply LL_eq.
